@@ -140,6 +140,10 @@ def run(chk):
     # call syntax applied to bracketed operands (too long for the exhaustive part)
     strs += ["(f, a)(x)", "(f, a)()", "f > (a, f)(x)", "f((a, f)(x), !a)", "(f)(x)", "f((x, a))", "(a,f) > x",
              "(f, a)(x) > x", "((f, a))(x)", "(f, a)(x, !a)", "(f > a)(x)", "f(x)(a)", "f()()"]
+    # keyword arguments of a value call whose key is not a plain name (too long for the exhaustive part)
+    strs += ["f(x=every(every()=1)) > a", "f(x=every(a=1=2)) > a", "f(x~every(f(x)=1)) > a", "f(x=every((a)=2)) > a",
+             "f(x=every(2=2)) > a", "f(x=every(a=1)) > a", "f(x=every(!a=1)) > a", "f(x=every(a as x=1)) > a",
+             "f(x=every(a:T=1)) > a", "f(x=every($v=1)) > a", "f(x=every(every(2)=every(2))) > a"]
     # absolute references whose module part cannot be imported at all
     strs += ["/. > x", "/.. > x", "/.a/f > x", "/ > x", "//f > x", "/a..b/f > x", "/1/2 > x", "/./f(x) > a", "f > /. > x"]
     n_mut = len(strs) - n_enum - n_rand
